@@ -17,6 +17,8 @@ package agent
 
 import (
 	"fmt"
+	"net"
+	"strings"
 	"sync"
 	"testing"
 	"time"
@@ -134,6 +136,99 @@ func TestVerif_C16_TransitExit(t *testing.T) {
 			r.Sample(map[string]any{"relayed_tunnels_held": len(held), "exit_tunnels": k, "id_sharing_tunnels": len(coll), "first_plans": plans[:min(2, len(plans))]})
 		}
 	})
+	// ---- the transit also ORIGINATES tunnels, towards another exit X, and every one of those
+	// opens is refused at X (closed port): X answers STREAM_OPEN_ERR on the transit's stream ids
+	// towards X, which equal the ids the transit uses towards E for A's relayed tunnels. A's
+	// tunnels are opened first and stay open with data flowing; the transit's opens must each
+	// be answered with the refusal, and A's tunnels must not notice. (No tunnel of the transit
+	// ever exists, so there is no late frame that could fall through to its own stream table.)
+	tp2 := c16Topo{Name: "transit-originates-to-second-exit", Spec: mkSpec{Names: []string{"A", "T", "E", "X"}, Edges: [][2]int{{0, 1}, {1, 2}, {1, 3}}},
+		Ingresses: []int{0, 1}, Exits: map[int]int{2: 3, 3: 4}}
+	r.Cases("transit-failing-opens", r.N(3, 30), func(ci int, rng *verifkit.Rand) {
+		dest, err := mkStartDest()
+		if err != nil {
+			r.Inconclusive(err.Error())
+			return
+		}
+		defer dest.close()
+		closedPort := 0
+		if l, err := net.Listen("tcp", "127.0.0.1:0"); err == nil {
+			closedPort = l.Addr().(*net.TCPAddr).Port
+			l.Close()
+		}
+		tap := mkInstallTap()
+		defer tap.close()
+		m, err := c16BuildMesh(t, tp2, dest, 30*time.Second)
+		if err != nil {
+			r.Inconclusive("mesh did not come up: " + err.Error())
+			return
+		}
+		defer m.stop()
+		base := uint64(ci)<<20 | 0xB000
+		k := rng.Range(2, 5)
+		var held []*mkHeld
+		for i := 0; i < k; i++ {
+			p := mkTunnelPlan{ID: base + uint64(i), Ingress: 0, Via: "tcp", Dest: fmt.Sprintf("127.3.%d.%d:%d", 1+rng.Intn(200), 1+i, dest.port), C2S: 1 << 20, S2C: int64(500 + rng.Intn(2000)), Mode: mkModeOrderly}
+			h, err := mkOpenHeld(m, p)
+			if err != nil {
+				r.Violation("transit-failing-opens:relayed-tunnel-open-failed", "transit-failing-opens", ci, fmt.Sprintf("relayed tunnel %d of A (through T to E) could not be opened: %v", i, err), p)
+				continue
+			}
+			held = append(held, h)
+		}
+		n := k + rng.Intn(3)
+		res := make([]*mkClientSide, n)
+		var wg sync.WaitGroup
+		for i := 0; i < n; i++ {
+			wg.Add(1)
+			go func(i int) {
+				defer wg.Done()
+				res[i] = mkRunTunnel(m, mkTunnelPlan{ID: base + 0x100 + uint64(i), Ingress: 1, Via: "tcp", Dest: fmt.Sprintf("127.4.%d.%d:%d", 1+i, 1+i, closedPort), Mode: mkModeRefused}, 8*time.Second)
+			}(i)
+			if rng.Chance(1, 2) {
+				time.Sleep(time.Duration(rng.Intn(5)) * time.Millisecond)
+			}
+		}
+		for round := 0; round < 20; round++ {
+			for _, h := range held {
+				h.poke(300 + rng.Intn(1500))
+			}
+			time.Sleep(3 * time.Millisecond)
+		}
+		wg.Wait()
+		for i, cs := range res {
+			switch {
+			case cs.DialErr == "":
+				r.Violation("transit-failing-opens:open-to-closed-port-succeeded", "transit-failing-opens", ci, fmt.Sprintf("the transit's own open %d to a closed port behind X succeeded", i), nil)
+			case strings.Contains(cs.DialErr, "deadline") || strings.Contains(cs.DialErr, "timeout") || strings.Contains(cs.DialErr, "timed out"):
+				r.Violation("transit-failing-opens:refusal-never-reached-the-opener", "transit-failing-opens", ci, fmt.Sprintf("the transit's own open %d to a closed port behind X got no answer within 8 s (%s) although X refuses such opens at once", i, cs.DialErr), nil)
+			default:
+				r.Add("transit_own_opens_refused", 1)
+			}
+		}
+		for _, h := range held {
+			var got, bad int64 = -1, -1
+			for i := 0; i < 400; i++ {
+				if ss := dest.side(h.plan.ID); ss != nil {
+					got, bad = ss.Got, ss.BadAt
+				}
+				if got >= h.off || bad >= 0 {
+					break
+				}
+				time.Sleep(10 * time.Millisecond)
+			}
+			if got < h.off || bad >= 0 {
+				r.Violation("transit-failing-opens:relayed-tunnel:bytes-lost-or-wrong", "transit-failing-opens", ci, fmt.Sprintf("A's relayed tunnel %d (kept open through T while T's own opens towards X were refused under the same stream ids): destination has %d of the %d bytes A wrote, first wrong byte at %d", h.plan.ID, got, h.off, bad), h.plan)
+			} else {
+				r.Add("relayed_tunnels_intact", 1)
+			}
+			h.close()
+		}
+		r.Add("tunnels", n+len(held))
+		r.Add("frames_tapped", int(tap.nFrames.Load()))
+		r.Eval(fmt.Sprintf("transit-failing-opens/%d/%d", k, n), len(held) > 0)
+	})
 	r.Require("relayed_tunnels_intact", 4)
 	r.Require("id_sharing_tunnels_computed", 4)
+	r.Require("transit_own_opens_refused", 3)
 }
